@@ -76,8 +76,18 @@ prop('C19', level='proof', design_ref='DESIGN.md section 6 (C19)',
      explanation='Per-function contracts on Peer helpers and PeerManager.',
      not_decided=[], assumptions=[])
 
+prop('C18', level='proof', design_ref='DESIGN.md section 6 (C18)',
+     technique='deductive verification: VCs from the real Daemon._send / failover / processors with a ghost fault script; '
+               'loop invariant + decreases; exact reals for the back-off; z3',
+     text='For every finite fault sequence followed by availability _send returns the genuine answer of the first '
+          'non-fault attempt, raises a genuine RPC error at once, fails over round-robin, and terminates.',
+     note='Trusted: T-HTTP (an attempt returns the reply or raises a listed class), T-DAEMON (reply shapes), floats as reals.',
+     explanation='Ghost fault script; termination by decreases q - p.',
+     not_decided=['_get_to_file (file truncation per attempt) and the batch processor of _send_vector are not under contract yet'],
+     assumptions=[])
+
 for _pid in ['C01', 'C02', 'C03', 'C04', 'C05', 'C07', 'C08', 'C09', 'C10', 'C11', 'C13', 'C14', 'C15',
-             'C18']:
+             ]:
     na(_pid, 'contracts for this property are not yet built in this round (planned: DESIGN.md section 6); nothing is claimed')
 na('C06', 'quantifies over cancellation instants of an asyncio task while worker-thread jobs keep running: not '
           'expressible as pre/postconditions of functions in a sequential or cooperative model (DESIGN.md section 6, C06)')
